@@ -61,11 +61,12 @@ def cases(rng, tier, X):
     # the tick itself: enumeration in Pausing with an incomplete session, Hello deadline and block deadline expired
     # together / separately, the last transmit recent or long ago, every wiring of the port
     for k in range(60 if tier == 'quick' else 6000):
-        ops = ['fsm new 0 map', 'fsm new 1 enum', 'tbl new 0', 'tbl add 0 020000000011 1 1', 'clock %d' % rng.choice([5000, 100000])]
+        ops = ['fsm new 0 map', 'fsm new 1 enum', 'tbl new 0', 'tbl add 0 020000000011 1 1', 'clock %d' % rng.choice([5000, 100000, 2**32 - 400, 2**32 + 5000, 2**40])]
         now = int(ops[-1].split()[1])
         for _ in range(rng.randint(1, 8)):
-            now += rng.choice([0, 1, 100, 299, 300, 301, 999, 1000, 1001, 5000])
-            ops.append('clock %d' % now)
+            d = rng.choice([0, 1, 100, 299, 300, 301, 999, 1000, 1001, 5000])
+            now += d
+            ops.append('clock %d' % d)           # `clock` advances the virtual clock
             ops.append('fsm set 1 1 %d' % (now // 1000))
             r = rng.choice([0, 1, 2, 3, 5, 9, 14, 15, 16, 100, 70000, rng.randrange(2**32)])
             ni = rng.choice([45, 45, 180, 10000, rng.randrange(45, 10001)])
